@@ -2,7 +2,7 @@ package main
 
 func init() {
 	register("C12",
-		"Race-freedom by construction, decided from the source: the three shared maps (codec registry, schema registry, timezone cache) are accessed only with their mutex held, exclusively for writes, and never leave the critical section (LK-GUARD, must-hold dataflow); every other package-level variable is a sync primitive or written only during package initialisation (LK-GLOBAL, with a positive fixture); no method of any codec type writes through its receiver, so built codecs are shareable (LK-IMMUT); the bank pool is used only via Get/Put (LK-POOL); stateful compressors are created per reader/writer and never stored in package state (LK-OWN); a bank handed to a callback is no longer referenced by the reader that filled it — extraction always installs a fresh one (OD-BANK); codec construction and schema generation share no package-level container besides the locked registries, so what one goroutine builds cannot depend on what another built (BT-PURE, SG-DET).  What is looked up in a guarded map is never written through (LK-SHARED). "+
+		"Race-freedom by construction, decided from the source: the three shared maps (codec registry, schema registry, timezone cache) are accessed only with their mutex held, exclusively for writes, and never leave the critical section (LK-GUARD, must-hold dataflow); every other package-level variable is a sync primitive or written only during package initialisation (LK-GLOBAL, with a positive fixture); no method of any codec type writes through its receiver, so built codecs are shareable (LK-IMMUT); the bank pool is used only via Get/Put (LK-POOL); stateful compressors are created per reader/writer and never stored in package state (LK-OWN); a bank handed to a callback is no longer referenced by the reader that filled it — extraction always installs a fresh one (OD-BANK); codec construction and schema generation share no package-level container besides the locked registries, so what one goroutine builds cannot depend on what another built (BT-PURE, SG-DET).  What is looked up in a guarded map is never written through (LK-SHARED).  What the zone cache holds for an offset is built from that offset and constants alone, so which goroutine fills it first makes no difference to what any of them reads (TZ-KEY). "+
 			"Not decided: result-equivalence under interleaving, races inside third-party packages, and user-side misuse (closing a bank twice).",
 		func(c *Ctx) {
 			ruleLKGuard(c)
@@ -22,5 +22,6 @@ func init() {
 			ruleALBuf(c)
 			ruleLKPair(c)
 			ruleALFinal(c)
+			ruleTZKey(c)
 		})
 }
